@@ -860,8 +860,17 @@ class RemoveTransformation(object):
 
         :param stream: the marked event stream to filter
         """
+        attributes = []
         for mark, event in stream:
-            if mark is None:
+            if mark is ATTR:
+                # a selected attribute is removed from the element it belongs
+                # to, which follows unmarked
+                attributes.extend([name for name, _ in event[1][1]])
+            elif mark is None:
+                if attributes and event[0] is START:
+                    kind, data, pos = event
+                    event = kind, (data[0], data[1] - attributes), pos
+                    attributes = []
                 yield mark, event
 
 
